@@ -94,6 +94,18 @@ DrawIter(d, px) == DrawFrom(d, px, 1)
 FillPixels(area, c) == LET pts == RowMajor(area) IN [i \in 1..Len(pts) |-> <<pts[i][1], pts[i][2], c>>]
 FillSolid(d, area, c) == DrawIter(d, FillPixels(area, c))
 
+\* The same as FillSolid without stepping through the pixels (the points of an area are distinct): the first
+\* offending point in row-major order ends the call, the points before it are stored.  MC_C20 checks
+\* FillSolidFast = FillSolid on the small display; Trace_C20 uses it for clear() and whole-display fills.
+FillSolidFast(d, area, c) ==
+  LET pts == PointsOf(area)
+      Off == { p \in pts : IF Inside(p) THEN ~d.ovr /\ p \in DOMAIN d.cells ELSE ~d.oob }
+      first == CHOOSE p \in Off : \A q \in Off : ~RMLess(q, p)
+      applied == IF Off = {} THEN { p \in pts : Inside(p) } ELSE { p \in pts : Inside(p) /\ RMLess(p, first) }
+  IN [st |-> [d EXCEPT !.cells = [p \in applied \cup DOMAIN @ |-> IF p \in applied THEN c ELSE @[p]]],
+      out |-> IF Off = {} THEN OutOk ELSE IF Inside(first) THEN OutTwice ELSE OutOob,
+      at |-> IF Off = {} THEN 0 ELSE 1 + Cardinality({ p \in pts : RMLess(p, first) })]
+
 \* PartialEq, mod.rs:497-501: the pixel arrays are compared, the flags are not
 Eq(a, b) == a.cells = b.cells
 
